@@ -1272,6 +1272,29 @@ func intervalOf(facts []Fact, t *Term) (lo, hi *int64, has bool) {
 			has = true
 		}
 	}
+	// t >= 0 together with t != 0 is t >= 1 (an "if len(x) == 0 { default }" guard)
+	if lo != nil && *lo == 0 {
+		for _, f := range facts {
+			if f.Atom.Kind == "EQ" && !f.Pol {
+				var c int64 = -1
+				if f.Atom.A.Key() == k {
+					c, _ = f.Atom.B.IntConst()
+					if _, ok := f.Atom.B.IntConst(); !ok {
+						c = -1
+					}
+				} else if f.Atom.B.Key() == k {
+					c, _ = f.Atom.A.IntConst()
+					if _, ok := f.Atom.A.IntConst(); !ok {
+						c = -1
+					}
+				}
+				if c == 0 {
+					one := int64(1)
+					lo = &one
+				}
+			}
+		}
+	}
 	return
 }
 
